@@ -678,6 +678,15 @@ func FirstMatchLoops(p *core.Program, r *core.Report) {
 				}
 				return false
 			}
+			// path state 1: a verdict was taken and is not known to be NotCaptured; 2: known NotCaptured. The collapse
+			// 1 -> 2 happens at statement boundaries (and block ends), where the facts are still those of the path -
+			// at the joins that follow they are merged away, the path state is not.
+			w.Refine = func(st int, f facts.Formula) int {
+				if st == 1 && notCaptured(f) {
+					return 2
+				}
+				return st
+			}
 			w.OnBranch = func(b *ast.BranchStmt, states uint64, f facts.Formula) {
 				if b.Tok == token.CONTINUE && states&2 != 0 && !notCaptured(f) && bad == "" {
 					bad = "continue at " + p.Pos(b.Pos())
